@@ -399,3 +399,43 @@ where I: Iterator<Item = E> + DoubleEndedIterator + ExactSizeIterator + Clone {
         }
     }
 }
+
+// ------------------------------------------------------------------ FromRepr / EnumDiscriminants (C06, C09)
+pub const BIG: i128 = 1 << 30;
+/// exhaustive sweep of an 8/16-bit discriminant type
+#[macro_export]
+macro_rules! repr_sweep {
+    ($o:expr, $def:expr, $E:ty, $R:ty, $anchor:expr) => {{
+        let mut hits: Vec<String> = Vec::new();
+        let mut d: $R = <$R>::MIN;
+        loop {
+            if let Some(v) = <$E>::from_repr(d) {
+                hits.push(format!("[{},{},{}]", d as i128 - $anchor, $crate::Probe::decl_index(&v), $crate::Probe::payload_ok(&v) as u8));
+            }
+            if d == <$R>::MAX { break; }
+            d += 1;
+        }
+        $o.line(&format!("{{\"op\":\"sweep\",\"def\":{},\"ty\":\"{}\",\"lo\":{},\"hi\":{},\"hits\":{}}}", $def, stringify!($R),
+            <$R>::MIN as i128 - $anchor, <$R>::MAX as i128 - $anchor, $crate::jlist(&hits)));
+    }};
+}
+/// probes of a wide discriminant type: the given absolute values plus MIN, MAX, 0 and seeded random values
+#[macro_export]
+macro_rules! repr_probes {
+    ($o:expr, $def:expr, $E:ty, $R:ty, $anchor:expr, $vals:expr, $seed:expr) => {{
+        let mut rng = $crate::Rng::new($seed ^ ($def as u64));
+        let mut xs: Vec<i128> = $vals.to_vec();
+        xs.extend([0i128, 1, -1, <$R>::MIN as i128, <$R>::MAX as i128, <$R>::MIN as i128 + 1, <$R>::MAX as i128 - 1, $anchor, $anchor + 1, $anchor - 1]);
+        for _ in 0..40 { xs.push(rng.next() as i64 as i128); xs.push($anchor + (rng.below(64) as i128) - 32); }
+        let mut out: Vec<String> = Vec::new();
+        for x in xs {
+            if let Ok(d) = <$R>::try_from(x) {
+                let rel = x - $anchor;
+                let big = rel.abs() > $crate::BIG;
+                let (res, pd) = match <$E>::from_repr(d) { Some(v) => ($crate::Probe::decl_index(&v), $crate::Probe::payload_ok(&v) as u8), None => (0, 0) };
+                out.push(format!("[{},{},{},{}]", if big { 0 } else { rel }, big as u8, res, pd));
+            }
+        }
+        $o.line(&format!("{{\"op\":\"probes\",\"def\":{},\"ty\":\"{}\",\"probes\":{}}}", $def, stringify!($R), $crate::jlist(&out)));
+    }};
+}
